@@ -4,13 +4,14 @@ Workloads covering every public entry point; for every k the k-th allocation req
 proper (confuse.c compiled with the failable allocator header; scanner-internal allocations excluded) fails during the
 operation under test.  Oracle: the process is not aborted and no sanitizer report appears, the call completes or
 reports failure, and afterwards the context (if any) can be dumped, printed, parsed into and freed, with no block or
-file left (counting allocator)."""
+file left (counting allocator).  The call instances of the proved explicit-heap model (coq/Oom.v) are run for every fault
+index and the outcome (failure reported / done) compared with the table extracted from the model."""
 import re
 from common import Scn, hx, Opt, CFGF
 import gen
 
 VARIANT = 'countasan'
-NO_MODEL = True      # allocation failure is not part of the executable model; see DESIGN.md (C18)
+NO_MODEL = True      # the scenario interpreter of the parser model has no allocator; the OOM model (coq/Oom.v) is tied through its extracted fault table
 RULE = ('workloads (one per public entry point group) x every k up to the number of allocation requests of the workload (+2); '
         'non-trivial = the fault was actually triggered (the result differs from the fault-free run or the call failed); distinct by (workload, k)')
 F = CFGF
@@ -66,7 +67,40 @@ def scenario(name, pre, ops, needs_ctx, k):
     return Scn('%s@%d' % (name, k), lines, {'class': name, 'k': k, 'first': first + 1, 'after': after, 'nops': len(ops), 'workload': name})
 
 
+# ---- the instances of the explicit-heap model (coq/Oom.v Part III): one library call each, every fault index;
+# the library's outcome (failure reported / call done) must be the one the extracted model table predicts
+T6 = [Opt('int', b'a', 0, 0), Opt('str', b'b', 0, b'x'), Opt('strl', b'l', 0, b'{p}')]
+T61 = [Opt('sec', b's', 0, None, [Opt('int', b'i', 0, 0), Opt('str', b't', 0, b'x')]), Opt('str', b'b', 0, b'x')]
+ONE = [Opt('str', b'b', F['NODEFAULT'], None)]
+# instance -> (schema, commands before, the call, how to read the outcome: regex on its result line that means `done`, kmax compared)
+INSTANCES = {
+    2: (ONE, ['init 0 0 0'], 'setstr 0 62 %s 0' % hx(b'v'), r'rc=0 ', 8),
+    21: (ONE, ['init 0 0 0', 'setstr 0 62 %s 0' % hx(b'u')], 'setstr 0 62 %s 0' % hx(b'v'), r'rc=0 ', 8),
+    3: (ONE, ['init 0 0 0'], 'setcomment 0 62 %s' % hx(b'c'), r'rc=0 ', 8),
+    4: (ONE, ['init 0 0 0'], 'searchpath 0 ' + hx(b'/etc'), r'rc=0 ', 8),
+    41: (ONE, ['passwd %s %s' % (hx(b'root'), hx(b'/root')), 'init 0 0 0'], 'searchpath 0 ' + hx(b'~root/x'), r'rc=0 ', 8),
+    # cfg_init = the modelled part (context + private copy of the declarations) followed by cfg_init_defaults, which
+    # allocates further: only the fault indices of the modelled part are compared
+    7: (T6, [], 'init 0 0 0', r'rc=ptr', 8),
+    71: (T61, [], 'init 0 0 0', r'rc=ptr', 10),
+}
+
+
+def instance_scenario(inst, k):
+    schema, pre, call, done, kmax = INSTANCES[inst]
+    lines = ['schema 0 ' + gen.schema_sexpr(schema)] + pre
+    first = len(lines)
+    lines += ['failalloc %d' % k, call, 'failalloc 0']
+    after = len(lines)
+    lines += (['dump 0', 'free 0'] if inst not in (7, 71) else ['free 0']) + ['live']
+    return Scn('inst%d@%d' % (inst, k), lines, {'class': 'model-instance-%d' % inst, 'k': k, 'first': first + 1, 'after': after, 'nops': 1,
+                                                'workload': 'inst%d' % inst, 'inst': inst, 'done': done})
+
+
 def generate(rng, tier):
+    for inst, spec in INSTANCES.items():
+        for k in range(0, spec[4] + 1):
+            yield instance_scenario(inst, k)
     wl = WORKLOADS if tier == 'thorough' else WORKLOADS
     kmax = KMAX if tier == 'thorough' else 45
     for name, pre, ops, needs in wl:
@@ -92,4 +126,20 @@ def oracle(scn, il):
         return [('oom:%s' % what, '%s: allocation #%d failing: %s while executing `%s`' % (scn.id, k, tr, scn.lines[len(body)][:60] if len(body) < len(scn.lines) else 'exit'))]
     if body and body[-1].startswith('live ') and body[-1] != 'live blocks=0 files=0':
         return [('oom:leak', '%s: allocation #%d failing: after freeing everything %s' % (scn.id, k, body[-1]))]
+    if 'inst' in scn.meta:
+        # correspondence with the proved model: failure is reported exactly for the fault indices of the extracted table
+        global OOM_TABLE
+        if OOM_TABLE is None:
+            import common
+            OOM_TABLE = common.oom_table()
+        inst = scn.meta['inst']
+        res = body[scn.meta['first']]
+        got_done = re.search(scn.meta['done'], res + ' ') is not None
+        want_done = k not in OOM_TABLE[inst]
+        if got_done != want_done:
+            return [('oom-model:inst%d' % inst, '%s: with allocation #%d failing the library %s, the model (coq/Oom.v, theorem C18_* of this call) says it %s: %s' % (
+                scn.id, k, 'completes' if got_done else 'reports failure', 'completes' if want_done else 'reports failure', res[:120]))]
     return []
+
+
+OOM_TABLE = None
